@@ -99,7 +99,8 @@ class BlockServer:
             if self.misbehave == "b1-wrong-num-final" and not more and num > 0:
                 ack_num = num - 1
             if more:
-                return (rc.c(2, 31), [(rc.BLOCK1, rc.block_bytes(ack_num, True, ack_szx))], b"")
+                extra = [(6, b"\x05")] if (self.misbehave == "b1-observe-in-continue" and idx >= self.misbehave_at) else []
+                return (rc.c(2, 31), extra + [(rc.BLOCK1, rc.block_bytes(ack_num, True, ack_szx))], b"")
             tr.complete = True
             body = bytes(tr.body)
             self.completed_bodies.append((path, body))
